@@ -85,6 +85,10 @@ public:
             locker.unlock();
             QThread::msleep(10);
             locker.relock();
+
+            // The mutex was released: another stop may have completed in the meantime
+            if (!m_thread)
+                return;
         }
 
         m_thread->quit();
